@@ -113,6 +113,8 @@ type World struct {
 	// task always runs; at a few tape-chosen steps the running task drops
 	// below everybody else. Finds orderings that need one task to be starved
 	// for a long stretch, which the coin-flip policies reach only rarely.
+	libBirths   int64
+	lastLibSite string
 	pct      bool
 	prioSeed uint64
 	changeAt []int64
@@ -181,8 +183,21 @@ func (w *World) newTask(id, site string, harness bool) *Task {
 	t.bornStep = w.step
 	w.tasks = append(w.tasks, t)
 	w.live++
+	if !harness {
+		w.libBirths++
+		w.lastLibSite = site
+	}
 	w.mu.Unlock()
 	return t
+}
+
+// LibBirths reports how many library tasks (goroutines started and timers
+// fired in library code) have come into being so far, and the site of the
+// latest one: a quiet-period check compares it before and after.
+func (w *World) LibBirths() (int64, string) {
+	w.mu.Lock()
+	defer w.mu.Unlock()
+	return w.libBirths, w.lastLibSite
 }
 
 func (t *Task) bind() {
